@@ -474,19 +474,23 @@ def check_enumeration(prog, ctx, models):
                     firsts = sym_elems(kind, [f"c{i}" for i in range(max(nd - 1, 0))])
                     q = sym_elems(kind, ["q"])[0]
                     cms = [{c: 1} for c in firsts] + ([AnyKeys()] if nd else [])
-                    arr = _array_obj(prog, model, duals, cms, q)
-                    got = enumerate_(ev, arr)
                     ncase += 1
                     if nd == 0:
-                        # symbolic total charge is not the identity in general: nothing is generated
-                        # unless charge == identity; check with the identity charge as well
-                        arr0 = _array_obj(prog, model, (), [], model.combine())
+                        # a 0-d array has the empty sector iff its charge is the identity: decided on concrete charges (the test may
+                        # be written as a truth test, which a symbolic charge cannot answer)
+                        ident = model.combine()
+                        arr0 = _array_obj(prog, model, (), [], ident)
                         got0 = enumerate_(ev, arr0)
                         if got0 != [()] or not valid(ev, arr0, ()):
-                            bad = bad or f"0-d array with identity charge: generated {got0}"
-                        if got:
-                            bad = bad or f"0-d array with non-identity charge q: generated {got}"
+                            bad = bad or f"0-d array with identity charge {ident}: generated {got0}"
+                        others = [1, -2] if not isinstance(ident, tuple) else [(1, 0), (0, -1), (2, 3)]
+                        for qc in others:
+                            gotc = enumerate_(ev, _array_obj(prog, model, (), [], qc))
+                            if gotc:
+                                bad = bad or f"0-d array with non-identity charge {qc}: generated {gotc}"
                         continue
+                    arr = _array_obj(prog, model, duals, cms, q)
+                    got = enumerate_(ev, arr)
                     if len(got) != 1:
                         bad = bad or f"ndim={nd} duals={duals}: {len(got)} sectors generated for one partial sector"
                         continue
